@@ -5,6 +5,23 @@ V = os.path.dirname(os.path.dirname(os.path.abspath(__file__)))
 ALL = ["C%02d" % i for i in range(1, 20)]
 TECH = "symbolic execution of the real /repo source on z3 bit-vector proxies (symx), per-path SMT queries, concrete replay"
 CLAIMED = {
+ "C01": dict(text="Bounded symbolic verification of the real constructors and facade methods: every CDB argument is a solver "
+                  "variable of its full field width; each emitted byte is compared with an independently transcribed "
+                  "layout by an unsat query. All values within field widths are covered; structure (42+ classes x defining "
+                  "sets x 2 entry points) is enumerated.",
+             ref="3/C01", note="spec/cdb_layouts.py (transcription of SPC/SBC/SMC/MMC/SAT tables) is trusted; parameter "
+                               "list contents fixed here (C05)"),
+ "C02": dict(text="Bounded symbolic verification: all fields jointly symbolic for unmarshall(marshall(d))==d, all CDB byte "
+                  "strings with undefined bits 0 for marshall(unmarshall(b))==b, plus a structural bit-set comparison with "
+                  "the standard's layout.", ref="3/C02",
+             note="single-threaded, no other command in between (C09 covers isolation); spec/cdb_layouts.py trusted"),
+ "C03": dict(text="Bounded symbolic verification: sizes/flags symbolic, buffer lengths as solver terms; announced transfer "
+                  "decoded from the emitted CDB; ATA size rules explored over all flag combinations; both transports over "
+                  "stub bindings.", ref="3/C03", note="stub bindings (stubs/env.py) stand for cython-sgio/cython-iscsi"),
+ "C14": dict(text="init_cdb executed on a symbolic opcode (every path decided by z3 against the SAM group rule); the finite "
+                  "code tables compared, as finite functions in the solver, with an independent T10 transcription "
+                  "(complete for the tables).", ref="3/C14",
+             note="spec/t10_codes.py trusted; SCC-2 service actions are oracle gaps"),
  "C10": dict(text="Bounded symbolic verification: converter.py runs on solver variables including a symbolic contiguous "
                   "mask; every algebraic law is an unsat query per path. Holds for all values inside the stated bounds "
                   "(mask <= 136 bits, buffers <= 22 bytes); not a proof beyond them.",
